@@ -249,6 +249,15 @@ type c14op struct {
 	max    string // "-" or decimal
 	casreq string // "-", "0", "1"
 	dva    string // "-", "0", "F" (far future), "N" (negative: config only = disabled)
+	cm     string // custom_metadata: "" or "-" absent, "{}" empty map, k=v,... ("~" = null, metadata patch only)
+	mcas   string // metadata_cas: "" or "-" absent, decimal
+}
+
+func c14dash(s string) string {
+	if s == "" {
+		return "-"
+	}
+	return s
 }
 
 func (o c14op) fields() []string {
@@ -261,8 +270,8 @@ func (o c14op) fields() []string {
 		return []string{o.kind, o.path}
 	case "deletev", "undelete", "destroy":
 		return []string{o.kind, o.path, o.vers}
-	case "metawrite":
-		return []string{o.kind, o.path, o.max, o.casreq, o.dva}
+	case "metawrite", "metapatch":
+		return []string{o.kind, o.path, o.max, o.casreq, o.dva, c14dash(o.cm), c14dash(o.mcas)}
 	case "confwrite":
 		return []string{o.kind, o.max, o.casreq, o.dva}
 	case "confread":
@@ -343,7 +352,16 @@ func (o c14op) request() (logical.Operation, string, map[string]any) {
 		}
 		pre := map[string]string{"deletev": "delete/", "undelete": "undelete/", "destroy": "destroy/"}[o.kind]
 		return logical.UpdateOperation, pre + o.path, d
-	case "metawrite", "confwrite":
+	case "metawrite", "confwrite", "metapatch":
+		if cm := c14dash(o.cm); cm == "{}" {
+			d["custom_metadata"] = map[string]any{}
+		} else if cm != "-" {
+			d["custom_metadata"] = c14data(cm)
+		}
+		if mc := c14dash(o.mcas); mc != "-" {
+			n, _ := strconv.ParseInt(mc, 10, 64)
+			d["metadata_cas"] = n
+		}
 		if o.max != "-" {
 			n, _ := strconv.ParseInt(o.max, 10, 64)
 			d["max_versions"] = n
@@ -362,6 +380,9 @@ func (o c14op) request() (logical.Operation, string, map[string]any) {
 		if o.kind == "confwrite" {
 			return logical.UpdateOperation, "config", d
 		}
+		if o.kind == "metapatch" {
+			return logical.PatchOperation, "metadata/" + o.path, d
+		}
 		return logical.UpdateOperation, "metadata/" + o.path, d
 	case "metaread":
 		return logical.ReadOperation, "metadata/" + o.path, d
@@ -377,6 +398,14 @@ func c14errClass(s string) string {
 	switch {
 	case strings.Contains(s, errC14Fault.Error()):
 		return "err:storage"
+	case strings.Contains(s, "metadata check-and-set parameter does not match"):
+		return "err:mcas-mismatch"
+	case strings.Contains(s, "metadata_cas must be 0"):
+		return "err:mcas-notzero"
+	case strings.Contains(s, "metadata check-and-set parameter required"):
+		return "err:mcas-required"
+	case strings.Contains(s, "custom_metadata validation failed"):
+		return "err:custom-metadata"
 	case strings.Contains(s, "did not match the current version"):
 		return "err:cas-mismatch"
 	case strings.Contains(s, "check-and-set parameter required"):
@@ -466,6 +495,30 @@ func c14dva(v any) string {
 	return "?"
 }
 
+func c14encCM(v any) string {
+	switch m := v.(type) {
+	case nil:
+		return "-"
+	case map[string]string:
+		if len(m) == 0 {
+			return "-"
+		}
+		ks := make([]string, 0, len(m))
+		for k := range m {
+			ks = append(ks, k)
+		}
+		sort.Strings(ks)
+		out := make([]string, len(ks))
+		for i, k := range ks {
+			out[i] = k + "=" + m[k]
+		}
+		return strings.Join(out, ",")
+	case map[string]any:
+		return c14encData(m)
+	}
+	return "?" + fmt.Sprintf("%T", v)
+}
+
 func c14verMeta(m map[string]any) string {
 	return c14num(m["version"]) + ":" + c14del(m["deletion_time"]) + ":" + c14bool(m["destroyed"])
 }
@@ -543,7 +596,7 @@ func c14canon(kind string, resp *logical.Response, err error) string {
 		}
 		return "meta:cur=" + c14num(d["current_version"]) + ":old=" + c14num(d["oldest_version"]) + ":max=" + c14num(d["max_versions"]) +
 			":casreq=" + c14bool(d["cas_required"]) + ":dva=" + c14dva(d["delete_version_after"]) + ":mv=" + c14num(d["current_metadata_version"]) +
-			":" + vstr + warn
+			":" + vstr + ":cm=" + c14encCM(d["custom_metadata"]) + warn
 	case "confread":
 		d := resp.Data
 		return "conf:max=" + c14num(d["max_versions"]) + ":casreq=" + c14bool(d["cas_required"]) + ":dva=" + c14dva(d["delete_version_after"]) + warn
@@ -609,6 +662,7 @@ type c14gen struct {
 	rng   *vh.Rand
 	paths []string
 	cur   map[string]int64 // shadow of the current version, only used to aim cas values and version numbers
+	mv    map[string]int64 // shadow of the current metadata version (aims metadata_cas)
 	n     int
 	small bool // profile: small max_versions, so that pruning happens early
 }
@@ -692,6 +746,43 @@ func (g *c14gen) maxField() string {
 	return g.rng.Pick([]string{"-", "-", "0", "1", "2", "3", "5", "12", "-1"})
 }
 
+func (g *c14gen) cmField(patch bool) string {
+	if g.rng.Chance(55) {
+		return "-"
+	}
+	if g.rng.Chance(10) {
+		return "{}"
+	}
+	var parts []string
+	for _, k := range []string{"x", "y"} {
+		if g.rng.Chance(60) {
+			if patch && g.rng.Chance(35) {
+				parts = append(parts, k+"=~")
+			} else {
+				parts = append(parts, k+"="+g.val())
+			}
+		}
+	}
+	if len(parts) == 0 {
+		return "x=" + g.val()
+	}
+	return strings.Join(parts, ",")
+}
+
+func (g *c14gen) mcasField(path string) string {
+	switch r := g.rng.Intn(100); {
+	case r < 65:
+		return "-"
+	case r < 85:
+		return vh.I(g.mv[path])
+	case r < 92:
+		return vh.I(g.mv[path] + 1)
+	case r < 96:
+		return "0"
+	}
+	return vh.I(int64(g.rng.Intn(4)))
+}
+
 func (g *c14gen) next() c14op {
 	p := g.rng.Pick(g.paths)
 	switch r := g.rng.Intn(100); {
@@ -713,9 +804,16 @@ func (g *c14gen) next() c14op {
 		return c14op{kind: "undelete", path: p, vers: g.versField(p)}
 	case r < 77:
 		return c14op{kind: "destroy", path: p, vers: g.versField(p)}
-	case r < 84:
+	case r < 81:
 		return c14op{kind: "metawrite", path: p, max: g.maxField(), casreq: g.rng.Pick([]string{"-", "-", "0", "1"}),
-			dva: g.rng.Pick([]string{"-", "-", "-", "0", "F"})}
+			dva: g.rng.Pick([]string{"-", "-", "-", "0", "F"}), cm: g.cmField(false), mcas: g.mcasField(p)}
+	case r < 84:
+		mx := g.maxField()
+		if mx == "-1" {
+			mx = "7" // a negative max_versions cannot be merged into the uint32 field: the patch errors out (not modelled)
+		}
+		return c14op{kind: "metapatch", path: p, max: mx, casreq: g.rng.Pick([]string{"-", "-", "0", "1"}),
+			dva: g.rng.Pick([]string{"-", "-", "-", "0", "F"}), cm: g.cmField(true), mcas: g.mcasField(p)}
 	case r < 92:
 		return c14op{kind: "metaread", path: p}
 	case r < 94:
@@ -738,6 +836,12 @@ func (g *c14gen) note(o c14op, res string) {
 	case "metadelete":
 		if res == "nil" {
 			g.cur[o.path] = 0
+			g.mv[o.path] = 0
+		}
+	case "metaread":
+		if i := strings.Index(res, ":mv="); i >= 0 {
+			t := res[i+4:]
+			g.mv[o.path], _ = strconv.ParseInt(t[:strings.Index(t, ":")], 10, 64)
 		}
 	}
 }
@@ -766,7 +870,7 @@ func TestVerifC14Seq(t *testing.T) {
 		e := newC14Env(t, tx)
 		out.Reset()
 		out.Op("ok", "mode", c14mode(tx))
-		g := &c14gen{rng: rng, cur: map[string]int64{}, small: rng.Chance(60)}
+		g := &c14gen{rng: rng, cur: map[string]int64{}, mv: map[string]int64{}, small: rng.Chance(60)}
 		g.paths = []string{"p0", "p1", "d/p2"}[:1+rng.Intn(3)]
 		nOps := 15 + rng.Intn(60)
 		for i := 0; i < nOps; i++ {
@@ -805,7 +909,7 @@ type c14scenario struct {
 
 func c14faultScenario(t *testing.T, rng *vh.Rand, idx int) c14scenario {
 	sc := c14scenario{tx: idx%2 == 0}
-	g := &c14gen{rng: rng, cur: map[string]int64{}, small: true}
+	g := &c14gen{rng: rng, cur: map[string]int64{}, mv: map[string]int64{}, small: true}
 	switch idx % 4 {
 	case 0, 1:
 		// engineered: a window that has to move by several versions, optionally with a destroyed version (a gap
@@ -996,7 +1100,40 @@ const c14quiet = 30 * time.Millisecond
 // runSchedule runs one request per thread under a seeded scheduler.  Scheduler actions: start a thread, or let a
 // parked thread perform its next storage operation.  A started thread that does not reach a gate within the quiet
 // period is blocked on the key lock; it shows up at its first gate after the holder has finished.
-func (e *c14env) runSchedule(ops []c14op, rng *vh.Rand) (res []string, prec []string, sched []string, err error) {
+// c14chooser picks the next scheduler action among `choices` (threads not started yet or parked at a gate);
+// performed[i] = storage operations thread i has been allowed to perform so far
+type c14chooser func(choices []int, started []bool, performed []int) int
+
+func c14random(rng *vh.Rand) c14chooser {
+	return func(choices []int, _ []bool, _ []int) int { return choices[rng.Intn(len(choices))] }
+}
+
+// c14directed: thread p performs exactly j storage operations and is then kept parked while thread w runs (to
+// completion, unless it blocks on the key lock); afterwards p, then everything else
+func c14directed(p, w, j int) c14chooser {
+	return func(choices []int, started []bool, performed []int) int {
+		has := func(i int) bool {
+			for _, c := range choices {
+				if c == i {
+					return true
+				}
+			}
+			return false
+		}
+		if has(p) && (!started[p] || performed[p] < j) {
+			return p
+		}
+		if has(w) {
+			return w
+		}
+		if has(p) {
+			return p
+		}
+		return choices[0]
+	}
+}
+
+func (e *c14env) runSchedule(ops []c14op, choose c14chooser) (res []string, prec []string, sched []string, performed []int, err error) {
 	g := newC14Gate()
 	e.c.gate = g
 	defer func() { e.c.gate = nil }()
@@ -1004,6 +1141,7 @@ func (e *c14env) runSchedule(ops []c14op, rng *vh.Rand) (res []string, prec []st
 	var mu sync.Mutex
 	started := make([]bool, n)
 	done := make([]bool, n)
+	performed = make([]int, n)
 	res = make([]string, n)
 	isDone := func(i int) bool { mu.Lock(); defer mu.Unlock(); return done[i] }
 	waitFor := func(pred func() bool, d time.Duration) bool {
@@ -1053,11 +1191,11 @@ func (e *c14env) runSchedule(ops []c14op, rng *vh.Rand) (res []string, prec []st
 				return countTrue(done, &mu) == n
 			}
 			if !waitFor(anyParked, 10*time.Second) {
-				return nil, nil, sched, errors.New("schedule stuck: " + strings.Join(sched, " "))
+				return nil, nil, sched, performed, errors.New("schedule stuck: " + strings.Join(sched, " "))
 			}
 			continue
 		}
-		pick := choices[rng.Intn(len(choices))]
+		pick := choose(choices, started, performed)
 		if !started[pick] {
 			for f := 0; f < n; f++ {
 				if isDone(f) {
@@ -1077,6 +1215,7 @@ func (e *c14env) runSchedule(ops []c14op, rng *vh.Rand) (res []string, prec []st
 			waitFor(func() bool { return g.isParked(pick+1) || isDone(pick) }, c14quiet)
 		} else {
 			op := g.release(pick + 1)
+			performed[pick]++
 			sched = append(sched, fmt.Sprintf("%d:%s", pick, op))
 			// a released thread may also block: the transactional data read begins its read-only transaction
 			// before it asks for the key lock
@@ -1087,7 +1226,7 @@ func (e *c14env) runSchedule(ops []c14op, rng *vh.Rand) (res []string, prec []st
 			}
 		}
 	}
-	return res, prec, sched, nil
+	return res, prec, sched, performed, nil
 }
 
 func countTrue(b []bool, mu *sync.Mutex) int {
@@ -1102,11 +1241,143 @@ func countTrue(b []bool, mu *sync.Mutex) int {
 	return c
 }
 
+// c14concEmit evaluates the property's predicates directly on the answers of one concurrent phase and on the state it
+// left behind, writes the `conc` line (the driver searches a linearization), then follow-up requests and observations
+// (compared with the model state reached by the linearization, and seen by the per-case predicate)
+func c14concEmit(out *vh.Out, e *c14env, ops []c14op, res []string, prec []string, sched []string, cur0, cas int64, otherBump bool) {
+	obsLines := e.observe("p0")
+	viol := ""
+	var okVers []int64
+	casWinners, casWriters := 0, 0
+	for i, o := range ops {
+		if o.kind == "write" && o.path == "p0" && o.cas != "-" {
+			casWriters++
+		}
+		if (o.kind == "write" || o.kind == "patch") && o.path == "p0" && strings.HasPrefix(res[i], "ok:") {
+			v, _ := strconv.ParseInt(strings.Split(res[i], ":")[1], 10, 64)
+			okVers = append(okVers, v)
+			if o.cas != "-" {
+				casWinners++
+			}
+			// read of version v returns v's data (unless another thread deleted/destroyed it: then it is not "ok")
+			if o.kind == "write" && int(v)+1 < len(obsLines) {
+				r := obsLines[v+1]
+				if strings.HasPrefix(r, "ok:") && !strings.HasPrefix(r, "ok:"+vh.I(v)+":"+o.data+":") {
+					viol = "!VIOL:after the concurrent phase version " + vh.I(v) + " reads " + r + ", the write acknowledged with that version stored " + o.data + "#conc-read-wrong-data"
+				}
+			}
+		}
+	}
+	sort.Slice(okVers, func(i, j int) bool { return okVers[i] < okVers[j] })
+	for i, v := range okVers {
+		if v != cur0+int64(i)+1 {
+			viol = "!VIOL:successful concurrent writes did not receive consecutive version numbers#conc-versions-not-consecutive"
+		}
+	}
+	curAfter := int64(-1)
+	if m := obsLines[0]; strings.HasPrefix(m, "meta:cur=") {
+		t := strings.TrimPrefix(m, "meta:cur=")
+		curAfter, _ = strconv.ParseInt(t[:strings.Index(t, ":")], 10, 64)
+	} else if m == "nil" {
+		curAfter = 0
+	}
+	if want := cur0 + int64(len(okVers)); curAfter != want {
+		viol = "!VIOL:the current version after the concurrent phase is " + vh.I(curAfter) + ", the acknowledged writes imply " + vh.I(want) + " (an acknowledged version was lost)#conc-acknowledged-version-lost"
+	}
+	switch {
+	case casWinners > 1:
+		viol = "!VIOL:more than one writer presenting the same cas value succeeded#cas-two-winners"
+	case casWriters > 0 && casWinners == 0 && cas == cur0 && !otherBump:
+		viol = "!VIOL:no writer presenting the current version as cas succeeded#cas-no-winner"
+	case casWinners == 1 && cas != cur0 && !otherBump:
+		viol = "!VIOL:a writer presenting a stale cas value succeeded#cas-stale-winner"
+	}
+	var enc []string
+	for _, o := range ops {
+		enc = append(enc, strings.Join(o.fields(), ";"))
+	}
+	pr := strings.Join(prec, ",")
+	if pr == "" {
+		pr = "-"
+	}
+	// last field: the schedule that produced the history (start<i> = thread i started, <i>:<op> = thread i performed
+	// that storage operation); informative, ignored by the driver
+	out.Op("lin"+viol, "conc", strings.Join(enc, "|"), pr, strings.Join(res, "|"), "p0", strings.Join(obsLines, "|"), strings.Join(sched, " "))
+	e.emitObserve(out, "p0")
+	e.emitObserve(out, "p1")
+	// follow-up: the cas value the writers presented must be refused once one of them has won; the next write gets the
+	// next number; every version still reads its own data
+	for _, o := range []c14op{
+		{kind: "write", path: "p0", cas: vh.I(cas), data: "f=again"},
+		{kind: "write", path: "p0", cas: "-", data: "f=next"},
+	} {
+		out.Op(e.exec(0, o), o.fields()...)
+	}
+	e.emitObserve(out, "p0")
+}
+
+// directed schedules: a metadata PATCH / PUT is parked after each of its storage operations while a complete data
+// write (or delete / destroy / metadata PUT) on the same key runs
+func TestVerifC14ConcDirected(t *testing.T) {
+	out := vh.Open()
+	defer out.Close()
+	holders := []c14op{
+		{kind: "metapatch", path: "p0", max: "5", casreq: "-", dva: "-"},
+		{kind: "metapatch", path: "p0", max: "-", casreq: "-", dva: "-", cm: "x=m1", mcas: "0"},
+		{kind: "metawrite", path: "p0", max: "-", casreq: "-", dva: "-", cm: "y=m2"},
+	}
+	runners := []c14op{
+		{kind: "write", path: "p0", cas: "2", data: "a=w9,t=t0"},
+		{kind: "write", path: "p0", cas: "-", data: "a=w9,t=t0"},
+		{kind: "delete", path: "p0"},
+		{kind: "destroy", path: "p0", vers: "2"},
+		{kind: "metawrite", path: "p0", max: "-", casreq: "1", dva: "-", cm: "z=m3"},
+		{kind: "patch", path: "p0", cas: "-", data: "b=w8"},
+	}
+	nRun := 0
+	for _, tx := range []bool{true, false} {
+		for _, h := range holders {
+			for _, r := range runners {
+				// both roles: the metadata handler parked while the other request runs, and the other request parked
+				// (holding the key lock from its first storage operation on) while the metadata handler runs as far as
+				// it can — a handler that reads the key metadata before it takes the lock gets its stale copy here
+				for _, first := range []int{0, 1} {
+					total := -1
+					for j := 0; total < 0 || j <= total; j++ {
+						e := newC14Env(t, tx)
+						out.Reset()
+						out.Op("ok", "mode", c14mode(tx))
+						for _, o := range []c14op{
+							{kind: "write", path: "p0", cas: "-", data: "a=w1"},
+							{kind: "write", path: "p0", cas: "-", data: "a=w2"},
+						} {
+							out.Op(e.exec(0, o), o.fields()...)
+						}
+						ops := []c14op{h, r}
+						res, prec, sched, performed, err := e.runSchedule(ops, c14directed(first, 1-first, j))
+						if err != nil {
+							t.Fatalf("directed %s/%s first=%d j=%d: %v", h.kind, r.kind, first, j, err)
+						}
+						total = performed[first]
+						if nRun < 2 || (j == 1 && r.kind == "write" && r.cas == "2" && h.max == "5") {
+							t.Logf("directed (%s) holder=%s runner=%s first=%d j=%d: %s => %v", c14mode(tx), h.kind, r.kind, first, j, strings.Join(sched, " "), res)
+						}
+						nRun++
+						c14concEmit(out, e, ops, res, prec, sched, 2, 2, r.kind == "patch" || (r.kind == "write" && r.cas == "-"))
+						e.close()
+					}
+				}
+			}
+		}
+	}
+	t.Logf("%d directed schedules", nRun)
+}
+
 func TestVerifC14Conc(t *testing.T) {
 	out := vh.Open()
 	defer out.Close()
 	root := vh.NewRand(vh.Seed() ^ 0xc0c0)
-	nSched := vh.EnvInt("VERIF_C14_CONC_SCHEDULES", 220)
+	nSched := vh.EnvInt("VERIF_C14_CONC_SCHEDULES", 180)
 	if vh.Thorough() {
 		nSched = vh.EnvInt("VERIF_C14_CONC_SCHEDULES", 3500)
 	}
@@ -1116,7 +1387,7 @@ func TestVerifC14Conc(t *testing.T) {
 		e := newC14Env(t, tx)
 		out.Reset()
 		out.Op("ok", "mode", c14mode(tx))
-		g := &c14gen{rng: rng, cur: map[string]int64{}, small: true}
+		g := &c14gen{rng: rng, cur: map[string]int64{}, mv: map[string]int64{}, small: true}
 		// set-up: a few versions on the contended path, sometimes a narrow window or cas_required
 		var setup []c14op
 		nv := rng.Intn(5)
@@ -1148,6 +1419,16 @@ func TestVerifC14Conc(t *testing.T) {
 			ops = append(ops, c14op{kind: "metaread", path: "p0"})
 		}
 		if rng.Chance(45) {
+			// a metadata PATCH / PUT thread next to the data writers: every handler that rewrites the key metadata
+			// must be an atomic section under the key lock
+			if rng.Chance(60) {
+				ops = append(ops, c14op{kind: "metapatch", path: "p0", max: rng.Pick([]string{"-", "3", "5"}), casreq: "-", dva: "-",
+					cm: "x=" + g.val(), mcas: rng.Pick([]string{"-", "-", "0", "1"})})
+			} else {
+				ops = append(ops, c14op{kind: "metawrite", path: "p0", max: "-", casreq: "-", dva: "-", cm: "y=" + g.val()})
+			}
+		}
+		if rng.Chance(45) {
 			switch rng.Intn(7) {
 			case 0:
 				ops = append(ops, c14op{kind: "delete", path: "p0"})
@@ -1171,59 +1452,14 @@ func TestVerifC14Conc(t *testing.T) {
 			q := rng.Intn(j + 1)
 			ops[j], ops[q] = ops[q], ops[j]
 		}
-		casReq := false
-		for _, o := range setup {
-			if o.kind == "metawrite" && o.casreq == "1" {
-				casReq = true
-			}
-		}
-		_ = casReq
-		res, prec, sched, err := e.runSchedule(ops, rng)
+		res, prec, sched, _, err := e.runSchedule(ops, c14random(rng))
 		if err != nil {
 			t.Fatalf("schedule %d: %v", si, err)
 		}
-		obsLines := e.observe("p0")
-		// the property's predicate, directly on the implementation's answers
-		viol := ""
-		var okVers []int64
-		casWinners := 0
-		for i, o := range ops {
-			if (o.kind == "write" || o.kind == "patch") && o.path == "p0" && strings.HasPrefix(res[i], "ok:") {
-				v, _ := strconv.ParseInt(strings.Split(res[i], ":")[1], 10, 64)
-				okVers = append(okVers, v)
-				if o.cas != "-" {
-					casWinners++
-				}
-			}
-		}
-		sort.Slice(okVers, func(i, j int) bool { return okVers[i] < okVers[j] })
-		for i, v := range okVers {
-			if v != cur0+int64(i)+1 {
-				viol = "!VIOL:successful concurrent writes did not receive consecutive version numbers#conc-versions-not-consecutive"
-			}
-		}
-		switch {
-		case casWinners > 1:
-			viol = "!VIOL:more than one writer presenting the same cas value succeeded#cas-two-winners"
-		case casWinners == 0 && cas == cur0 && !otherBump:
-			viol = "!VIOL:no writer presenting the current version as cas succeeded#cas-no-winner"
-		case casWinners == 1 && cas != cur0 && !otherBump:
-			viol = "!VIOL:a writer presenting a stale cas value succeeded#cas-stale-winner"
-		}
-		var enc []string
-		for _, o := range ops {
-			enc = append(enc, strings.Join(o.fields(), ";"))
-		}
-		pr := strings.Join(prec, ",")
-		if pr == "" {
-			pr = "-"
-		}
-		out.Op("lin"+viol, "conc", strings.Join(enc, "|"), pr, strings.Join(res, "|"), "p0", strings.Join(obsLines, "|"))
 		if si < 3 {
 			t.Logf("schedule %d (%s): %s => %v", si, c14mode(tx), strings.Join(sched, " "), res)
 		}
-		e.emitObserve(out, "p0")
-		e.emitObserve(out, "p1")
+		c14concEmit(out, e, ops, res, prec, sched, cur0, cas, otherBump)
 		e.close()
 	}
 }
